@@ -288,4 +288,154 @@ Section RowSec.
   Qed.
   Lemma FL_nodup : NoDup (F ++ L).
   Proof. apply (comp_nodup comps k Hnd Hk). Qed.
+
+  (* ---- the hits of a row's locations ---- *)
+  Lemma memb_filter_seq (f : nat -> bool) m q : q < m -> memb q (filter f (seq 0 m)) = f q.
+  Proof.
+    intros H. destruct (f q) eqn:E.
+    - apply memb_In. apply filter_In. split; [apply in_seq; lia|exact E].
+    - destruct (memb q (filter f (seq 0 m))) eqn:E2; [|reflexivity]. apply memb_In in E2. apply filter_In in E2. destruct E2 as [_ E2]. congruence.
+  Qed.
+  Lemma forallb_map' {A B} (h : A -> B) (g : B -> bool) : forall l, forallb g (map h l) = forallb (fun a => g (h a)) l.
+  Proof. induction l as [|a l IH]; [reflexivity|]. cbn [map forallb]. rewrite IH. reflexivity. Qed.
+  Lemma memb_FL v : In v (F ++ L) -> memb v L = negb (memb v F).
+  Proof.
+    intros Hin. pose proof FL_nodup as Hn. destruct (memb v F) eqn:EF; cbn [negb].
+    - apply memb_In in EF. destruct (memb v L) eqn:EL; [|reflexivity]. apply memb_In in EL. exfalso.
+      clear - Hn EF EL. induction F as [|a l IHl]; [destruct EF|]. cbn [app] in Hn. inversion Hn as [|? ? Ha Hn']; subst.
+      destruct EF as [->|EF]; [apply Ha; apply in_or_app; right; exact EL|apply (IHl Hn' EF)].
+    - apply in_app_or in Hin. destruct Hin as [Hin|Hin]; [apply memb_In in Hin; congruence|apply memb_In; exact Hin].
+  Qed.
+
+  Lemma row_hits row : row <> [] -> (forall v, In v row -> In v (F ++ L)) -> length (filter (fun v => memb v L) row) <= 1 ->
+    hits d y (row_locs_in st c row) = if forallb (fun u => nth (level_of d u) y false) row then 1 else 0.
+  Proof.
+    intros Hrow Hin Hleaf. unfold row_locs_in. fold F L nf.
+    set (G := fun u => nth (level_of d u) y false).
+    set (P := map (fun u => index_of u F) (filter (fun u => memb u F) row)).
+    assert (PF : forall pos, In pos P -> pos < nf).
+    { intros pos Hp. unfold P in Hp. apply in_map_iff in Hp. destruct Hp as [u [<- Hu]]. apply filter_In in Hu. destruct Hu as [_ Hu]. apply memb_In in Hu.
+      apply (index_of_lt u F Hu). }
+    assert (RowF : forallb G (filter (fun u => memb u F) row) = forallb (fun pos => nth pos xf false) P).
+    { unfold P. rewrite forallb_map'. apply forallb_ext_in'. intros u Hu. apply filter_In in Hu. destruct Hu as [Hur Hu]. unfold G.
+      rewrite (d_level_of u (Hin u Hur)), index_of_app, Hu. apply y_at_f. apply memb_In in Hu. apply (index_of_lt u F Hu). }
+    assert (Split : forallb G row = forallb G (filter (fun u => memb u F) row) && forallb G (filter (fun v => memb v L) row)).
+    { rewrite (forallb_split G (fun u => memb u F) row). f_equal. f_equal. apply filter_ext_in. intros v Hv. symmetry. apply memb_FL. apply Hin. exact Hv. }
+    pose proof st_bound as Hst. pose proof d_len as Hdl.
+    destruct (filter (fun v => memb v L) row) as [|l tl] eqn:EL.
+    - (* all units of the row are factors *)
+      assert (Hall : filter (fun u => memb u F) row = row).
+      { assert (H : forall v, In v row -> memb v F = true).
+        { intros v Hv. pose proof (memb_FL v (Hin v Hv)) as E. destruct (memb v F) eqn:EF; [reflexivity|]. cbn in E.
+          assert (In v (filter (fun v0 => memb v0 L) row)) by (apply filter_In; split; assumption). rewrite EL in H. destruct H. }
+        clear - H. induction row as [|a r IH]; [reflexivity|]. cbn [filter]. rewrite (H a (or_introl eq_refl)). f_equal. apply IH. intros v Hv. apply H. right. exact Hv. }
+      assert (PN : P <> []) by (unfold P; rewrite Hall; destruct row; [contradiction|discriminate]).
+      destruct (max_in P PN) as [Mi Mle]. set (i := fold_right Nat.max 0 P) in *. pose proof (PF i Mi) as Hi.
+      assert (Lfi : length (firstn i xf) = i) by (rewrite firstn_length, xf_len; lia).
+      rewrite hits_nodes; [|apply NoDup_filter, seq_NoDup|unfold comp_size in Hst; fold F L nf in Hst; lia|unfold comp_size in Hst; fold F L nf in Hst; lia].
+      rewrite (d_node_at i) by (unfold comp_size; fold F L nf; lia). replace (i <? nf) with true by (symmetry; apply Nat.ltb_lt; exact Hi).
+      rewrite memb_filter_seq by (rewrite <- Lfi at 2; apply sel_lt). rewrite y_at_f by exact Hi.
+      rewrite Split, RowF. cbn [forallb]. rewrite andb_true_r.
+      rewrite (forallb_pivot (fun pos => nth pos xf false) i P Mi).
+      replace (forallb (fun pos => Nat.eqb pos i || msb i (sel (firstn i xf)) pos) P) with (forallb (fun pos => Nat.eqb pos i || nth pos xf false) P); [reflexivity|].
+      apply forallb_ext_in'. intros pos Hp. destruct (Nat.eqb_spec pos i) as [->|Hpi]; [reflexivity|]. cbn [orb].
+      pose proof (Mle pos Hp). rewrite <- Lfi at 1. rewrite msb_sel by (rewrite Lfi; lia). symmetry. apply nth_firstn_lt. lia.
+    - (* the row has its leaf *)
+      assert (Etl : tl = []) by (destruct tl; [reflexivity|cbn in Hleaf; lia]). subst tl.
+      assert (HlL : In l L).
+      { assert (Hl : In l (filter (fun v => memb v L) row)) by (rewrite EL; left; reflexivity). apply filter_In in Hl. destruct Hl as [_ Hl]. apply memb_In. exact Hl. }
+      destruct (index_of_lt l L HlL) as [Hidx _].
+      assert (HlF : memb l F = false).
+      { pose proof (memb_FL l (in_or_app _ _ _ (or_intror HlL))) as E. rewrite (proj2 (memb_In l L) HlL) in E. destruct (memb l F); [discriminate|reflexivity]. }
+      rewrite <- Nat.add_assoc.
+      rewrite hits_nodes; [|apply NoDup_filter, seq_NoDup|unfold comp_size in Hst; fold F L nf in Hst; lia|unfold comp_size in Hst; fold F L nf in Hst; lia].
+      rewrite (d_node_at (nf + index_of l L)) by (unfold comp_size; fold F L nf; lia).
+      replace (nf + index_of l L <? nf) with false by (symmetry; apply Nat.ltb_ge; lia).
+      rewrite memb_filter_seq by (rewrite <- xf_len; apply sel_lt). rewrite y_at_l by exact Hidx.
+      rewrite Split, RowF. cbn [forallb]. rewrite andb_true_r. unfold G at 1.
+      rewrite (d_level_of l (in_or_app _ _ _ (or_intror HlL))), index_of_app, HlF. fold nf. rewrite y_at_l by exact Hidx.
+      replace (forallb (msb nf (sel xf)) P) with (forallb (fun pos => nth pos xf false) P); [rewrite andb_comm; reflexivity|].
+      apply forallb_ext_in'. intros pos Hp. rewrite <- xf_len at 1. symmetry. apply msb_sel. rewrite xf_len. apply PF. exact Hp.
+  Qed.
 End RowSec.
+
+(* ---------- assembling the hypotheses of oracle_exact_order ---------- *)
+Lemma whole_zero t comps : comps <> [] -> (forall c, In c comps -> snd c <> []) -> zero_adders (compile_add t comps).
+Proof.
+  intros Hne HL. destruct (whole_shape t comps Hne HL) as [Ht [_ [EL _]]]. intros l nd Hl Hnd. rewrite Ht. rewrite EL in Hl.
+  destruct (concat_levels_in t _ _ l Hl) as [e [l0 [He [Hl0 C]]]]. apply in_map_iff in He. destruct He as [c [<- Hc]].
+  destruct (comp_add_facts t c (HL c Hc)) as [_ [Htc [_ [_ [_ Z]]]]]. rewrite <- Htc.
+  destruct C as [->|[tgt ->]]; unfold pad_level in Hnd; apply in_app_or in Hnd; destruct Hnd as [Hnd|Hnd];
+    try (apply repeat_spec in Hnd; subst nd; rewrite Htc; split; reflexivity).
+  - apply (Z l0 nd Hl0 Hnd).
+  - apply in_map_iff in Hnd. destruct Hnd as [n0 [<- Hn0]]. destruct (Z l0 n0 Hl0 Hn0) as [A B]. destruct (n_live n0); cbn [n_a0 n_a1]; split; assumption.
+Qed.
+
+Lemma row_ok_find : forall comps row s, row_ok comps row = true ->
+  exists k, k < length comps /\ row <> [] /\ (forall v, In v row -> In v (fst (nth k comps ([], [])) ++ snd (nth k comps ([], []))))
+            /\ length (filter (fun v => memb v (snd (nth k comps ([], [])))) row) <= 1
+            /\ row_locs s comps row = row_locs_in (s + start comps k) (nth k comps ([], [])) row.
+Proof.
+  induction comps as [|c r IH]; intros row s H; [discriminate|]. cbn [row_ok row_locs] in *.
+  destruct (memb (hd 0 row) (fst c ++ snd c)) eqn:E.
+  - apply andb_prop in H as [H H3]. apply andb_prop in H as [H1 H2]. exists 0. cbn [nth length]. split; [lia|]. split.
+    + intros ->. discriminate.
+    + split; [intros v Hv; rewrite forallb_forall in H2; apply memb_In; apply H2; exact Hv|]. split; [apply Nat.leb_le; exact H3|].
+      unfold start. cbn. rewrite Nat.add_0_r. reflexivity.
+  - destruct (IH row (s + comp_size c) H) as [k [A [B [C [D F]]]]]. exists (S k). cbn [nth length]. split; [lia|]. split; [exact B|]. split; [exact C|]. split; [exact D|].
+    rewrite F. f_equal. unfold start. cbn [map firstn fold_right]. lia.
+Qed.
+
+Theorem compile_valid (p : cprob) comps : hints_ok (p_units p) (p_rows p) comps = true ->
+  let d := compile_add (p_type p) comps in let locs := map (row_locs 0 comps) (p_rows p) in
+  d_type d = p_type p /\ okd d /\ zero_adders d
+  /\ Permutation (map (level_of d) (seq 0 (p_units p))) (seq 0 (p_units p)) /\ length (d_levels d) = p_units p
+  /\ (forall y, length y = p_units p -> forall r, r < length (p_rows p) ->
+        hits d y (nth r locs []) = if row_present (nth r (p_rows p) []) (unit_view d (p_units p) y) then 1 else 0)
+  /\ (forall r u, In u (nth r (p_rows p) []) -> u < p_units p).
+Proof.
+  unfold hints_ok. intros H.
+  repeat (match type of H with (_ && _) = true => let H' := fresh "V" in apply andb_prop in H as [H H'] end).
+  (* H nodup, V3 lt, V2 len, V1 leaves, V0 nonempty, V rows *)
+  set (n := p_units p) in *. set (t := p_type p).
+  assert (Hnd : NoDup (units_of comps)) by (apply nodup_b_NoDup; exact H).
+  assert (Hlt : forall u, In u (units_of comps) -> u < n) by (intros u Hu; rewrite forallb_forall in V3; apply Nat.ltb_lt; apply V3; exact Hu).
+  assert (Hlen : length (units_of comps) = n) by (apply Nat.eqb_eq; exact V2).
+  assert (HL : forall c, In c comps -> snd c <> []).
+  { intros c Hc E. rewrite forallb_forall in V1. specialize (V1 c Hc). rewrite E in V1. discriminate. }
+  assert (Hne : comps <> []) by (intros E; rewrite E in V0; discriminate).
+  set (d := compile_add t comps). set (locs := map (row_locs 0 comps) (p_rows p)). destruct (whole_shape t comps Hne HL) as [Ht [Hr [EL EU]]]. fold d in Ht, Hr, EL, EU.
+  assert (Hrow : forall r, r < length (p_rows p) -> row_ok comps (nth r (p_rows p) []) = true).
+  { intros r Hr'. rewrite forallb_forall in V. apply V. apply nth_In. exact Hr'. }
+  assert (Hunits : forall k v, k < length comps -> In v (fst (nth k comps ([], [])) ++ snd (nth k comps ([], []))) -> In v (units_of comps)).
+  { intros k v Hk Hv. unfold units_of. apply in_flat_map. exists (nth k comps ([], [])). split; [apply nth_In; exact Hk|exact Hv]. }
+  split; [exact Ht|]. split; [apply (whole_okd t comps Hne HL)|]. split; [apply (whole_zero t comps Hne HL)|]. split; [|split; [|split]].
+  - (* the unit order is a permutation *)
+    assert (PU : Permutation (units_of comps) (seq 0 n)).
+    { apply NoDup_Permutation_bis; [exact Hnd|rewrite seq_length; lia|]. intros u Hu. apply in_seq. specialize (Hlt u Hu). lia. }
+    assert (Hall : forall u, u < n -> In u (units_of comps)) by (intros u Hu; apply (Permutation_in _ (Permutation_sym PU)); apply in_seq; lia).
+    apply NoDup_Permutation_bis.
+    + apply KnnShapley.NoDup_map_inj; [apply seq_NoDup|]. intros u v Hu Hv E. apply in_seq in Hu. apply in_seq in Hv.
+      rewrite !level_of_index, EU in E. destruct (index_of_lt u _ (Hall u ltac:(lia))) as [_ A]. destruct (index_of_lt v _ (Hall v ltac:(lia))) as [_ B].
+      rewrite <- A, <- B, E. reflexivity.
+    + rewrite map_length, !seq_length. lia.
+    + intros x Hx. apply in_map_iff in Hx. destruct Hx as [u [<- Hu]]. apply in_seq in Hu. rewrite level_of_index, EU.
+      destruct (index_of_lt u _ (Hall u ltac:(lia))) as [A _]. apply in_seq. lia.
+  - apply (d_len t comps n Hne HL Hlen).
+  - intros y Hy r Hr'. destruct (row_ok_find comps (nth r (p_rows p) []) 0 (Hrow r Hr')) as [k [Hk [Hrne [Hin [Hleaf Eloc]]]]].
+    unfold locs. rewrite (nth_indep _ [] (row_locs 0 comps [])) by (rewrite map_length; exact Hr'). rewrite (map_nth (row_locs 0 comps)).
+    rewrite Eloc. cbn [Nat.add]. unfold d. rewrite (row_hits t comps n y k Hne HL Hnd Hlen Hy Hk _ Hrne Hin Hleaf).
+    unfold row_present. replace (forallb (fun u => nth u (unit_view (compile_add t comps) n y) false) (nth r (p_rows p) []))
+      with (forallb (fun u => nth (level_of (compile_add t comps) u) y false) (nth r (p_rows p) [])); [reflexivity|].
+    apply forallb_ext_in'. intros u Hu. symmetry. apply unit_view_nth. apply Hlt. apply (Hunits k u Hk). apply Hin. exact Hu.
+  - intros r u Hu. destruct (Nat.lt_ge_cases r (length (p_rows p))) as [Hr'|Hr']; [|rewrite nth_overflow in Hu by exact Hr'; destruct Hu].
+    destruct (row_ok_find comps (nth r (p_rows p) []) 0 (Hrow r Hr')) as [k [Hk [_ [Hin _]]]]. apply Hlt. apply (Hunits k u Hk). apply Hin. exact Hu.
+Qed.
+
+(* compile()'s construction is correct for every admissible component structure *)
+Theorem oracle_compile_exact (p : cprob) comps target t1 t2 :
+  hints_ok (p_units p) (p_rows p) comps = true -> 2 <= p_units p -> target < p_units p ->
+  oracle_query p (compile_add (p_type p) comps) (map (row_locs 0 comps) (p_rows p)) target t1 t2 = Some (count_spec p target t1 t2).
+Proof.
+  intros H Hn Htg. destruct (compile_valid p comps H) as [A [B [C [D [E [F G]]]]]]. apply oracle_exact_order; assumption.
+Qed.
